@@ -347,10 +347,20 @@ H(typ) == wk.pc = "handle" /\ Cur.typ = typ
 NoCommit(name) == /\ SetWk("postmark") /\ LabelN(name) /\ UNCHANGED <<durable, ledger, gh, cnt>>
 
 (* handlers/start_workflow.py *)
+(* start_time_expiry: a stage (workflow) whose start window lapsed before it started is skipped (cancelled); the window of
+   an "expired" stage lies in the past from the beginning, so it is a static attribute of the program *)
+StartExpired(s) == P.enabled[s] = "expired"
+WfStartExpired  == "wfExpired" \in DOMAIN P /\ P.wfExpired
+
 StartWorkflow ==
   /\ H("StartWorkflow")
   /\ IF wf.status # "NOT_STARTED" \/ wf.canceled
      THEN NoCommit("StartWorkflowIgnored")
+     ELSE IF WfStartExpired
+     THEN \* start_time_expiry lapsed: a CancelWorkflow is pushed (a commit of its own), nothing else is written
+          /\ Commit(<<CancelWorkflowM>>, FALSE)
+          /\ SetWk("hdone") /\ Label("StartWorkflowExpired")
+          /\ UNCHANGED <<wf, st, tk, dlq, claims, ledger, gh, cnt>>
      ELSE /\ wf' = [wf EXCEPT !.status = "RUNNING"]
           /\ Commit(Map(StartStageM, InOrder(Initial)), TRUE)
           /\ SetWk("hdone") /\ Label("StartWorkflow")
@@ -427,6 +437,10 @@ StartStage ==
             ELSE IF ChoiceClaimed(s)
             THEN /\ Commit(<<CancelStageM(s)>>, TRUE)
                  /\ SetWk("hdone") /\ Label("StartStageChoiceLost")
+                 /\ UNCHANGED <<wf, st, tk, dlq, claims, ledger, gh, cnt>>
+            ELSE IF StartExpired(s)
+            THEN /\ Commit(<<SkipStageM(s)>>, TRUE)
+                 /\ SetWk("hdone") /\ Label("StartStageExpired")
                  /\ UNCHANGED <<wf, st, tk, dlq, claims, ledger, gh, cnt>>
             ELSE IF ~MutexClaimOK(s)
             THEN \* claim row held by a live owner: transaction rolled back, StartStage re-queued with a delay
